@@ -71,6 +71,10 @@ impl<'a> WireProp for C05Wire<'a> {
                 let mut out = Outcome::default();
                 out.nontrivial = true;
                 let dst = self.rig.target(false);
+                // upstream replies are asked for under names that are asked again a good second
+                // later: what was cached from a hostile reply is then aged and served
+                let tag = unique_label();
+                let tagr = &tag;
                 std::thread::scope(|s| {
                     for (i, inp) in c.inputs.iter().enumerate() {
                         let rig = self.rig;
@@ -82,7 +86,7 @@ impl<'a> WireProp for C05Wire<'a> {
                                 let _ = tcp_exchange_linger(None, dst, &inp.0[..inp.0.len().min(65535)], &[], Duration::from_millis(150), Duration::from_millis(1));
                             }
                             via => {
-                                let name = vec![unique_label(), format!("h{}", i).into_bytes(), b"hostile".to_vec()];
+                                let name = vec![tagr.clone(), format!("h{}", i).into_bytes(), b"hostile".to_vec()];
                                 let q = dns::query(0x6000 + i as u16, &name, 1, 1, true, None);
                                 rig.ups[0].state.set(
                                     qkey(&q.questions[0]),
@@ -102,6 +106,20 @@ impl<'a> WireProp for C05Wire<'a> {
                         });
                     }
                 });
+                if c.via >= 2 && self.rig.health_peek() {
+                    std::thread::sleep(Duration::from_millis(1150));
+                    std::thread::scope(|s| {
+                        for i in 0..c.inputs.len() {
+                            s.spawn(move || {
+                                let name = vec![tagr.clone(), format!("h{}", i).into_bytes(), b"hostile".to_vec()];
+                                let q = dns::query(0x6800 + i as u16, &name, 1, 1, true, None);
+                                let b = dns::encode(&q, dns::Compress::Off);
+                                let _ = udp_exchange(IpAddr::V6(Ipv6Addr::LOCALHOST), dst, &b, Duration::from_millis(800), Duration::from_millis(1));
+                            });
+                        }
+                    });
+                    out.class("asked-again-after-a-second");
+                }
                 out.class(match c.via {
                     0 => "udp-datagrams-to-server",
                     1 => "tcp-frames-to-server",
@@ -926,7 +944,72 @@ pub fn run_c16_wire(ctx: &Ctx) {
                 cookie_variants,
             }
         });
-    run_wire(ctx, &prop, strat, ctx.tier.pick(6, 40), 1);
+    // a steady flood from one source for longer than any plausible internal period (35 s;
+    // thorough 100 s): the volume of REFUSED stays within burst + rate x time however long the
+    // flood lasts, and the allowance does not come back while the source keeps asking
+    {
+        let secs = ctx.tier.pick(35u64, 100u64);
+        let mut out = Outcome::default();
+        out.nontrivial = true;
+        out.class("steady-flood-across-half-minute-boundaries");
+        let case = serde_json::json!({"steady_flood_seconds": secs, "queries_per_second": 20});
+        match prop.start_server() {
+            Err(e) => out.fail("rig-error", e),
+            Ok((server, port)) => {
+                let src = IpAddr::V4(Ipv4Addr::new(127, 79, 0, 1));
+                let dst = SocketAddr::new(IpAddr::V4(Ipv4Addr::LOCALHOST), port);
+                match std::net::UdpSocket::bind((src, 0)) {
+                    Err(e) => out.fail("rig-error", e.to_string()),
+                    Ok(sock) => {
+                        sock.set_nonblocking(true).ok();
+                        let start = std::time::Instant::now();
+                        let mut arrivals: Vec<f64> = vec![];
+                        let mut buf = vec![0u8; 4096];
+                        let mut i = 0u32;
+                        while start.elapsed() < Duration::from_secs(secs) {
+                            let _ = sock.send_to(&refused_query(i as u16, None), dst);
+                            i += 1;
+                            std::thread::sleep(Duration::from_millis(50));
+                            while let Ok((l, from)) = sock.recv_from(&mut buf) {
+                                if is_refused(&Got { bytes: buf[..l].to_vec(), from, after: Duration::ZERO }) {
+                                    arrivals.push(start.elapsed().as_secs_f64());
+                                }
+                            }
+                        }
+                        // one REFUSED costs at least 200 tokens; two buckets of 1000 tokens, refilled
+                        // at 2 tokens a second each: 10 replies, plus one per 50 s of flood
+                        let allowed = 10 + 1 + (secs as usize * 4) / 200;
+                        if arrivals.len() > allowed {
+                            out.fail(
+                                "C16:steady-flood-over-budget",
+                                format!(
+                                    "{} refused queries in {} s from one source without a cookie got {} REFUSED responses (burst + rate x time allows {}); they arrived at {:?} s",
+                                    i,
+                                    secs,
+                                    arrivals.len(),
+                                    allowed,
+                                    arrivals.iter().map(|t| (t * 10.0).round() / 10.0).collect::<Vec<_>>()
+                                ),
+                            );
+                        }
+                        if let Some(p) = server.panics().first() {
+                            out.fail("server-panic", p.clone());
+                        }
+                    }
+                }
+            }
+        }
+        ctx.record(prop.sub(), &case, &out);
+        if let Some(f) = out.fail {
+            if ctx.is_known(&f.sig) {
+                ctx.known_hit(&f.sig);
+            } else {
+                ctx.violation(prop.sub(), &f, &case);
+                return;
+            }
+        }
+    }
+    run_wire(ctx, &prop, strat, ctx.tier.pick(4, 40), 1);
 }
 
 pub fn replay(id: &str, sub: &str, case: &serde_json::Value) -> Option<Result<Outcome, String>> {
